@@ -27,7 +27,7 @@ TECHNIQUES = {
     "C15": "static analysis: constructor-parameter vs emitted-field tables, guard-vs-default rules, alias discipline, __all__ coverage, truthiness scan, Engine.__init__ reference rule",
     "C16": "static analysis: parser automaton extraction by abstract interpretation and product comparison with the grammar automata; pushdown abstract interpretation of the formula parsers; exception-class enumeration over the call graph; dominance rules for pops/subscripts; load atomicity",
     "C17": "static analysis: registry table extraction vs the specification ladder and numpy name map; pushdown abstract interpretation of infix_to_postfix / parse against reference transducers; truth tables of the pop rule",
-    "C18": "static analysis: taint rule (fractional power -> truncation) on the grid size, abstract interpretation of Op.increment and of the row loop under role assignments, origin tracing of the write plumbing",
+    "C18": "static analysis: taint rule (fractional power -> truncation) on the grid size, abstract interpretation of write_from_scope + Op.increment over symbolic range bounds (exact linear forms) for bounded instance sizes, role-assignment interpretation of the row loop, origin tracing of the write plumbing",
     "C19": "static analysis: abstract interpretation of Engine.is_ready under all (needed, present) assignments, control-dependence of report sites, dereference guards on the processing path, tokeniser agreement",
     "C20": "static analysis: abstract interpretation of the Settings.context generator over symbolic attribute values for all subsets of settings and exit kinds; CFG path rules; table and who-may-read/write scans",
 }
